@@ -12,7 +12,7 @@ import tempfile
 import numpy as np
 
 from .. import gen, histories, snap
-from ..ctx import biteq
+from ..ctx import biteq, biteq_nan
 from . import C05, C11
 
 PROPERTY = "C12"
@@ -126,7 +126,7 @@ def round_trip(ctx, obj, kind, steps, rng):
         ctx.check(ok, "file-curve-columns-are-the-objects", "frequency / curve columns of the file are not the object's (bit for bit)",
                   file_shape=list(arr.shape), n_curves=ncur, **info)
         if kind != "diffuse":
-            okm = arr.shape[1] == ncur + 3 and biteq(arr[:, -2].copy(), want_mean) and biteq(arr[:, -1].copy(), want_std)
+            okm = arr.shape[1] == ncur + 3 and biteq_nan(arr[:, -2].copy(), want_mean) and biteq_nan(arr[:, -1].copy(), want_std)
             which = None
             if not okm and kind == "azimuthal" and arr.shape[1] == ncur + 3:
                 for a, h in enumerate(obj.hvsrs):
@@ -165,7 +165,7 @@ def round_trip(ctx, obj, kind, steps, rng):
             elif isinstance(w, tuple) and w and w[0] == "raises":
                 same = False
             else:
-                same = biteq(np.asarray(v, float), np.asarray(w, float))
+                same = biteq_nan(np.asarray(v, float), np.asarray(w, float))
             if not same:
                 bad.append((dist, k))
     ctx.check(not bad, "statistics-identical", "a statistic has a different value after the round trip", accessors=bad[:6], **info)
